@@ -1,9 +1,503 @@
-//! C16 — not implemented yet.
-use crate::util::{Args, Out};
-use serde_json::{Value, json};
+//! C16 — meaning is invariant under consistent renaming, redundant parentheses,
+//! layout/comments inside brackets and agreeing type annotations: metamorphic oracle
+//! (original vs transformed program, accept/reject and every output bit, both back ends).
 
-pub fn meta(_args: &Args) -> Value {
-    json!({"level": "exploration", "rule": "not implemented", "floor": {"quick": 1000000, "thorough": 1000000}})
+use super::c01::corpus_files;
+use super::progcase::{Case, feat_for, input_fn, norm};
+use super::{drive, replay_one};
+use crate::gens::core::*;
+use crate::run::{Backend, RunError, run_program};
+use crate::util::{Args, Out, Rng, bits_eq};
+use serde::{Deserialize, Serialize};
+use serde_json::{Value, json};
+use std::collections::HashMap;
+use std::path::PathBuf;
+
+#[derive(Clone, Debug, Serialize, Deserialize)]
+pub struct MCase {
+    pub original: String,
+    pub transformed: String,
+    pub transformation: String,
+    pub n: usize,
+    pub input_seed: u64,
+    #[serde(default)]
+    pub path: Option<String>,
+    #[serde(default)]
+    pub scheduler: bool,
 }
-pub fn run(_args: &Args, _out: &mut Out) {}
-pub fn replay(_args: &Args, _out: &mut Out, _case: &Value) {}
+
+// ------------------------------------------------------------------ renaming
+
+fn map_name(m: &HashMap<String, String>, n: &str) -> String {
+    m.get(n).cloned().unwrap_or_else(|| n.to_string())
+}
+fn ren_pat(p: &Pat, m: &HashMap<String, String>, f: &HashMap<String, String>) -> Pat {
+    match p {
+        Pat::Var(v) => Pat::Var(map_name(m, v)),
+        Pat::Tup(v) => Pat::Tup(v.iter().map(|x| ren_pat(x, m, f)).collect()),
+        Pat::Rec(v) => Pat::Rec(v.iter().map(|(fl, b)| (map_name(f, fl), map_name(m, b))).collect()),
+    }
+}
+fn ren_ty(t: &Ty, f: &HashMap<String, String>) -> Ty {
+    match t {
+        Ty::F => Ty::F,
+        Ty::Tup(v) => Ty::Tup(v.iter().map(|x| ren_ty(x, f)).collect()),
+        Ty::Rec(v) => Ty::Rec(v.iter().map(|(n, x)| (map_name(f, n), ren_ty(x, f))).collect()),
+        Ty::Fun(a, r) => Ty::Fun(a.iter().map(|x| ren_ty(x, f)).collect(), Box::new(ren_ty(r, f))),
+    }
+}
+fn ren_params(ps: &[Param], m: &HashMap<String, String>, f: &HashMap<String, String>) -> Vec<Param> {
+    ps.iter().map(|p| Param { name: map_name(m, &p.name), ty: ren_ty(&p.ty, f), annot: p.annot, default: p.default }).collect()
+}
+fn ren_block(b: &Block, m: &HashMap<String, String>, f: &HashMap<String, String>) -> Block {
+    Block {
+        stmts: b
+            .stmts
+            .iter()
+            .map(|s| match s {
+                Stmt::Let(p, t, e) => Stmt::Let(ren_pat(p, m, f), t.as_ref().map(|t| ren_ty(t, f)), ren_expr(e, m, f)),
+                Stmt::Assign(n, e) => Stmt::Assign(map_name(m, n), ren_expr(e, m, f)),
+            })
+            .collect(),
+        result: ren_expr(&b.result, m, f),
+    }
+}
+fn ren_expr(e: &E, m: &HashMap<String, String>, f: &HashMap<String, String>) -> E {
+    let r = |x: &E| Box::new(ren_expr(x, m, f));
+    let rv = |v: &[E]| v.iter().map(|x| ren_expr(x, m, f)).collect::<Vec<_>>();
+    match e {
+        E::Num(..) | E::SelfE | E::Now | E::SampleRate => e.clone(),
+        E::Var(n) => E::Var(map_name(m, n)),
+        E::FnRef(n) => E::FnRef(map_name(m, n)),
+        E::Bin(op, a, b) => E::Bin(*op, r(a), r(b)),
+        E::Neg(a) => E::Neg(r(a)),
+        E::Not(a) => E::Not(r(a)),
+        E::Builtin(n, v) => E::Builtin(n.clone(), rv(v)),
+        E::CallFn { name, args, style, site } => {
+            // record-style arguments name the callee's parameters
+            let args = match (style, args.first()) {
+                (CallStyle::Positional, _) => rv(args),
+                (_, Some(E::Record(fs))) => vec![E::Record(fs.iter().map(|(n, x)| (map_name(m, n), ren_expr(x, m, f))).collect())],
+                _ => rv(args),
+            };
+            E::CallFn { name: map_name(m, name), args, style: *style, site: *site }
+        }
+        E::CallVal(c, v) => E::CallVal(r(c), rv(v)),
+        E::PipeFn { arg, name, site } => E::PipeFn { arg: r(arg), name: map_name(m, name), site: *site },
+        E::PipeVal(a, b) => E::PipeVal(r(a), r(b)),
+        E::If(c, a, b) => E::If(r(c), r(a), r(b)),
+        E::Tuple(v) => E::Tuple(rv(v)),
+        E::Proj(a, i) => E::Proj(r(a), *i),
+        E::Record(fs) => E::Record(fs.iter().map(|(n, x)| (map_name(f, n), ren_expr(x, m, f))).collect()),
+        E::Field(a, n) => E::Field(r(a), map_name(f, n)),
+        E::Lambda(ps, b) => E::Lambda(ren_params(ps, m, f), Box::new(ren_block(b, m, f))),
+        E::Block(b) => E::Block(Box::new(ren_block(b, m, f))),
+        E::Mem(a, s) => E::Mem(r(a), *s),
+        E::Delay(n, x, t, s) => E::Delay(*n, r(x), r(t), *s),
+    }
+}
+
+fn collect_names(p: &Program) -> Vec<String> {
+    let mut names: Vec<String> = vec![];
+    let mut add = |n: &str| {
+        if n != "dsp" && !names.iter().any(|x| x == n) {
+            names.push(n.to_string());
+        }
+    };
+    fn pat(p: &Pat, add: &mut dyn FnMut(&str)) {
+        match p {
+            Pat::Var(v) => add(v),
+            Pat::Tup(v) => v.iter().for_each(|x| pat(x, add)),
+            Pat::Rec(v) => v.iter().for_each(|(_, b)| add(b)),
+        }
+    }
+    fn block(b: &Block, add: &mut dyn FnMut(&str)) {
+        for s in &b.stmts {
+            match s {
+                Stmt::Let(p, _, e) => {
+                    pat(p, add);
+                    expr(e, add);
+                }
+                Stmt::Assign(_, e) => expr(e, add),
+            }
+        }
+        expr(&b.result, add);
+    }
+    fn expr(e: &E, add: &mut dyn FnMut(&str)) {
+        crate::gens::shrink::visit(e, &mut |x| {
+            if let E::Lambda(ps, b) = x {
+                ps.iter().for_each(|p| add(&p.name));
+                for s in &b.stmts {
+                    if let Stmt::Let(p, _, _) = s {
+                        pat(p, add);
+                    }
+                }
+            }
+            if let E::Block(b) = x {
+                for s in &b.stmts {
+                    if let Stmt::Let(p, _, _) = s {
+                        pat(p, add);
+                    }
+                }
+            }
+        });
+    }
+    for (n, _, e) in p.pre_globals.iter().chain(p.globals.iter()) {
+        add(n);
+        expr(e, &mut add);
+    }
+    for f in p.fns.iter().chain(std::iter::once(&p.dsp)) {
+        add(&f.name);
+        f.params.iter().for_each(|q| add(&q.name));
+        block(&f.body, &mut add);
+    }
+    names
+}
+
+const COMPILER_LIKE: [&str; 14] = [
+    "lambda_0", "lambda_1", "__default_1_x", "record_update_temp", "__dt0", "__dt1", "dsp_", "_dsp", "Dsp", "state", "input", "output", "main_", "_mimium_global_",
+];
+
+pub fn rename(p: &Program, rng: &mut Rng, style: u8) -> Program {
+    let names = collect_names(p);
+    let mut m = HashMap::new();
+    let mut used: Vec<String> = vec![];
+    for (i, n) in names.iter().enumerate() {
+        let mut cand = match style {
+            0 => format!("zq{}_{}", i, n.len()),
+            1 => {
+                if i < COMPILER_LIKE.len() && rng.chance(2, 3) { COMPILER_LIKE[i].to_string() } else { format!("lambda_{}", 10 + i) }
+            }
+            _ => {
+                // names differing only in case / underscores
+                match i % 4 {
+                    0 => format!("Xa{}", i / 4),
+                    1 => format!("xa{}", i / 4),
+                    2 => format!("x_a{}", i / 4),
+                    _ => format!("_xa{}", i / 4),
+                }
+            }
+        };
+        while used.contains(&cand) || cand == "dsp" {
+            cand.push('_');
+        }
+        used.push(cand.clone());
+        m.insert(n.clone(), cand);
+    }
+    // record field names
+    let mut f = HashMap::new();
+    for (a, b) in [("p", "alpha"), ("q", "beta_"), ("r", "Gamma"), ("s", "d0")] {
+        f.insert(a.to_string(), b.to_string());
+    }
+    // record types keep sorted field order: rename must preserve order: alpha < beta_ < (Gamma sorts before lowercase!) -> use lowercase
+    f.insert("r".into(), "gamma".into());
+    f.insert("s".into(), "omega".into());
+    let rp = |g: &Vec<(String, Ty, E)>| g.iter().map(|(n, t, e)| (map_name(&m, n), ren_ty(t, &f), ren_expr(e, &m, &f))).collect();
+    let rf = |fd: &FnDef| FnDef {
+        name: map_name(&m, &fd.name),
+        params: ren_params(&fd.params, &m, &f),
+        ret: ren_ty(&fd.ret, &f),
+        ret_annot: fd.ret_annot,
+        body: ren_block(&fd.body, &m, &f),
+        stateful: fd.stateful,
+    };
+    Program { pre_globals: rp(&p.pre_globals), fns: p.fns.iter().map(rf).collect(), globals: rp(&p.globals), dsp: rf(&p.dsp), features: p.features.clone() }
+}
+
+// ------------------------------------------------------------------ annotations
+
+fn annotate_block(b: &mut Block) {
+    for s in b.stmts.iter_mut() {
+        if let Stmt::Let(_, _, e) = s {
+            annotate_expr(e);
+        }
+        if let Stmt::Assign(_, e) = s {
+            annotate_expr(e);
+        }
+    }
+    annotate_expr(&mut b.result);
+}
+fn annotate_expr(e: &mut E) {
+    match e {
+        E::Lambda(ps, b) => {
+            ps.iter_mut().for_each(|p| p.annot = true);
+            annotate_block(b);
+        }
+        E::Block(b) => annotate_block(b),
+        E::Bin(_, a, b) | E::PipeVal(a, b) => {
+            annotate_expr(a);
+            annotate_expr(b);
+        }
+        E::Neg(a) | E::Not(a) | E::Proj(a, _) | E::Field(a, _) | E::Mem(a, _) => annotate_expr(a),
+        E::PipeFn { arg, .. } => annotate_expr(arg),
+        E::Builtin(_, v) | E::Tuple(v) => v.iter_mut().for_each(annotate_expr),
+        E::CallFn { args, .. } => args.iter_mut().for_each(annotate_expr),
+        E::CallVal(c, v) => {
+            annotate_expr(c);
+            v.iter_mut().for_each(annotate_expr);
+        }
+        E::If(c, a, b) => {
+            annotate_expr(c);
+            annotate_expr(a);
+            annotate_expr(b);
+        }
+        E::Record(fs) => fs.iter_mut().for_each(|(_, x)| annotate_expr(x)),
+        E::Delay(_, x, t, _) => {
+            annotate_expr(x);
+            annotate_expr(t);
+        }
+        _ => {}
+    }
+}
+/// add every annotation the G-AST knows (they agree with the inferred types by construction)
+pub fn annotate(p: &Program) -> Program {
+    let mut q = p.clone();
+    for f in q.fns.iter_mut().chain(std::iter::once(&mut q.dsp)) {
+        f.params.iter_mut().for_each(|x| x.annot = true);
+        if f.ret.is_data() {
+            f.ret_annot = true;
+        }
+        annotate_block(&mut f.body);
+    }
+    for (_, _, e) in q.pre_globals.iter_mut().chain(q.globals.iter_mut()) {
+        annotate_expr(e);
+    }
+    q
+}
+
+// ------------------------------------------------------------------ text-level transformations
+
+/// whitespace, comments and line breaks after `(`, `[` and `,` while inside () or []
+pub fn relayout(src: &str, rng: &mut Rng) -> String {
+    let mut out = String::new();
+    let mut depth = 0i32;
+    let chars: Vec<char> = src.chars().collect();
+    let mut in_line_comment = false;
+    let mut in_string = false;
+    let mut i = 0;
+    while i < chars.len() {
+        let c = chars[i];
+        out.push(c);
+        if in_line_comment {
+            if c == '\n' {
+                in_line_comment = false;
+            }
+            i += 1;
+            continue;
+        }
+        if in_string {
+            if c == '"' {
+                in_string = false;
+            }
+            i += 1;
+            continue;
+        }
+        if c == '"' {
+            in_string = true;
+        }
+        if c == '/' && chars.get(i + 1) == Some(&'/') {
+            in_line_comment = true;
+        }
+        match c {
+            '(' | '[' => depth += 1,
+            ')' | ']' => depth -= 1,
+            _ => {}
+        }
+        if (c == '(' || c == '[' || c == ',') && depth > 0 && rng.chance(1, 3) {
+            out.push_str(match rng.below(5) {
+                0 => "\n    ",
+                1 => " /* c */ ",
+                2 => " // c\n  ",
+                3 => "   ",
+                _ => "\n\n",
+            });
+        }
+        i += 1;
+    }
+    out
+}
+
+/// redundant parentheses around parenthesised groups: `(x)` -> `((x))`, on the printer's output
+pub fn reparen(src: &str, rng: &mut Rng) -> String {
+    // wrap balanced (...) groups that are not call argument lists / parameter lists:
+    // the printer emits `(` directly after a space, `(`, `{`, `,` or at line start for grouping parens
+    let chars: Vec<char> = src.chars().collect();
+    let mut open_at: Vec<(usize, bool)> = vec![];
+    let mut wrap: Vec<(usize, usize)> = vec![];
+    for (i, c) in chars.iter().enumerate() {
+        match c {
+            '(' => {
+                let prev = chars[..i].iter().rev().find(|x| **x != ' ').copied().unwrap_or('\n');
+                let grouping = !(prev.is_alphanumeric() || prev == '_' || prev == ')' || prev == '}' || prev == ']');
+                // `if (` conditions stay as they are
+                let before: String = chars[..i].iter().rev().take(4).collect::<String>().chars().rev().collect();
+                let is_if = before.trim_end().ends_with("if");
+                open_at.push((i, grouping && !is_if));
+            }
+            ')' => {
+                if let Some((s, g)) = open_at.pop()
+                    && g
+                    && rng.chance(1, 4)
+                {
+                    wrap.push((s, i));
+                }
+            }
+            _ => {}
+        }
+    }
+    let mut ins_open: Vec<usize> = wrap.iter().map(|w| w.0).collect();
+    let mut ins_close: Vec<usize> = wrap.iter().map(|w| w.1).collect();
+    ins_open.sort();
+    ins_close.sort();
+    let mut out = String::new();
+    for (i, c) in chars.iter().enumerate() {
+        if ins_open.binary_search(&i).is_ok() {
+            out.push('(');
+        }
+        out.push(*c);
+        if ins_close.binary_search(&i).is_ok() {
+            out.push(')');
+        }
+    }
+    out
+}
+
+// ------------------------------------------------------------------ oracle
+
+pub struct Checked {
+    pub violations: Vec<(String, String)>,
+    pub compared: u64,
+    pub ran: bool,
+}
+
+pub fn check(c: &MCase) -> Checked {
+    let mut res = Checked { violations: vec![], compared: 0, ran: false };
+    let inp = input_fn(c.input_seed, true);
+    let path = c.path.as_ref().map(PathBuf::from);
+    for b in [Backend::Vm, Backend::Wasm] {
+        let a = run_program(b, &c.original, c.scheduler, c.n, &inp, false, path.clone());
+        let t = run_program(b, &c.transformed, c.scheduler, c.n, &inp, false, path.clone());
+        match (&a, &t) {
+            (Ok(x), Ok(y)) => {
+                res.ran = true;
+                res.compared += x.out.len() as u64;
+                if x.out.len() != y.out.len() {
+                    res.violations.push((format!("{}: channel-count-changes/{}", c.transformation, b.name()), format!("{} vs {}", x.out.len(), y.out.len())));
+                } else if let Some(i) = (0..x.out.len()).find(|&i| !bits_eq(x.out[i], y.out[i])) {
+                    res.violations.push((
+                        format!("{}: output-changes/{}", c.transformation, b.name()),
+                        format!("word {i}: original {:?} transformed {:?}", x.out[i], y.out[i]),
+                    ));
+                }
+            }
+            (Err(ea), Err(et)) => {
+                // both refused: fine as long as both are refusals of the same kind (diagnostics vs crash)
+                let ka = matches!(ea, RunError::Build(be) if be.is_reject());
+                let kt = matches!(et, RunError::Build(be) if be.is_reject());
+                if ka != kt {
+                    res.violations.push((
+                        format!("{}: refusal-kind-changes/{}", c.transformation, b.name()),
+                        format!("original: {} | transformed: {}", ea.short(), et.short()),
+                    ));
+                }
+            }
+            (Ok(_), Err(e)) => {
+                res.violations.push((
+                    format!("{}: accepted-becomes-refused/{}: {}", c.transformation, b.name(), norm(&e.short())),
+                    format!("transformed program: {}", e.short()),
+                ));
+            }
+            (Err(e), Ok(_)) => {
+                res.violations.push((
+                    format!("{}: refused-becomes-accepted/{}: {}", c.transformation, b.name(), norm(&e.short())),
+                    format!("original program: {}", e.short()),
+                ));
+            }
+        }
+    }
+    res
+}
+
+fn exec(c: &MCase, idx: usize, out: &mut Out) -> bool {
+    let r = check(c);
+    out.count(&format!("transformation:{}", c.transformation), 1);
+    out.count("output_words_compared", r.compared);
+    for (sig, detail) in &r.violations {
+        let key = format!("violations:{sig}");
+        let seen = out.counters.get(&key).copied().unwrap_or(0);
+        out.count(&key, 1);
+        if seen < 3 {
+            out.violation(idx, sig, detail, &serde_json::to_value(c).unwrap());
+        }
+    }
+    r.ran && c.original != c.transformed
+}
+
+pub fn meta(args: &Args) -> Value {
+    json!({
+        "level": "exploration",
+        "rule": "metamorphic: each generated core program (G-AST) is paired with a transformed version and both run on both back ends with the same inputs: (rename-fresh) every user identifier and record field consistently renamed to fresh names; (rename-compiler-like) to names resembling compiler-generated ones (lambda_0, __default_1_x, record_update_temp, __dt0, dsp_ ...); (rename-case) to names differing only in case and underscores; (annotate) every parameter / return / lambda parameter annotated with the type the G-AST knows; (parens) redundant parentheses around grouping parentheses; (layout) whitespace, block and line comments and line breaks after ( [ , inside brackets. Shipped sources get the layout transformation. Accept/reject and every output bit must be unchanged. Non-trivial = the transformation changed the text and both versions ran; distinct = hash of the pair.",
+        "assumptions": ["renamings never use keywords, builtin or intrinsic names", "annotations are exactly the generator's own types"],
+        "floor": {"quick": 100, "thorough": 4000},
+        "case_timeout_s": 60,
+        "hang_is_violation": false,
+        "crash_is_violation": false,
+        "budget": args.cases(400, 15000),
+    })
+}
+
+const TRANSFORMS: [&str; 6] = ["rename-fresh", "rename-compiler-like", "rename-case", "annotate", "parens", "layout"];
+
+pub fn run(args: &Args, out: &mut Out) {
+    let files = corpus_files(&args.repo);
+    let ncorpus = files.len();
+    let ngen = args.cases(400, 15000);
+    drive(
+        args,
+        out,
+        ncorpus + ngen,
+        |idx, rng| {
+            if idx < ncorpus {
+                let f = &files[idx];
+                let src = std::fs::read_to_string(f).ok()?;
+                for bad in ["Sampler", "sampler", "midi", "loadwav", "gen_sampler", "Slider", "Probe"] {
+                    if src.contains(bad) {
+                        return None;
+                    }
+                }
+                let name = f.file_name()?.to_string_lossy().to_string();
+                if args.q(&format!("corpus:{name}")) {
+                    return None;
+                }
+                let t = relayout(&src, rng);
+                return Some(MCase {
+                    original: src,
+                    transformed: t,
+                    transformation: "layout".into(),
+                    n: 8,
+                    input_seed: rng.next(),
+                    path: Some(f.to_string_lossy().to_string()),
+                    scheduler: true,
+                });
+            }
+            let feat = feat_for(args, rng);
+            let prog = generate(rng, feat);
+            let original = prog.print();
+            let which = TRANSFORMS[idx % TRANSFORMS.len()];
+            let transformed = match which {
+                "rename-fresh" => rename(&prog, rng, 0).print(),
+                "rename-compiler-like" => rename(&prog, rng, 1).print(),
+                "rename-case" => rename(&prog, rng, 2).print(),
+                "annotate" => annotate(&prog).print(),
+                "parens" => reparen(&original, rng),
+                _ => relayout(&original, rng),
+            };
+            Some(MCase { original, transformed, transformation: which.into(), n: *rng.pick(&[8usize, 24]), input_seed: rng.next(), path: None, scheduler: false })
+        },
+        exec,
+    );
+}
+
+pub fn replay(_args: &Args, out: &mut Out, case: &Value) {
+    replay_one::<MCase>(out, case, exec);
+}
